@@ -26,26 +26,37 @@ static const int ESZ[] = { 1, 1, 2, 4, 2, 4, 1 };
 static int verbose;
 
 /* one call: function f, element count n, byte offset al of dest inside the arena, fill selector v, slack elements beyond n in dmax */
-static void one(int f, size_t n, int al, int v, int slack) {
+static void one(int f, size_t n, int al, int v, int slack, int bosmode) {
     int es = ESZ[f]; size_t nb = n * es; unsigned char *d = arena + 256 + al; uint32_t val = 0; int rc = -1;
     for (int i = 0; i < ARENA; i++) arena[i] = (unsigned char)(0x81 + i * 37);           /* never 0 at ... checked by value, not assumed */
-    if (f == 6) { for (size_t i = 0; i < nb; i++) if (d[i] == 0) d[i] = 0x41; }           /* a password without interior terminator, unterminated within dmax */
+    size_t slen6 = nb;
+    if (f == 6) { for (size_t i = 0; i < nb; i++) if (d[i] == 0) d[i] = 0x41; if (v == 1 && nb > 1) { slen6 = nb / 2; d[slen6] = 0; } }   /* a password: unterminated within dmax (v=0) or shorter than dmax with stale bytes behind it (v=1) */
+    /* object size as the library is told it: unknown, exactly dmax, or a larger enclosing object (24 bytes more) */
+    size_t dmaxb = (f == 0 || f == 2 || f == 3) ? nb + (size_t)slack * es : nb;
+    size_t bos = bosmode == 0 ? BOSU : bosmode == 1 ? dmaxb : dmaxb + 24;
     memcpy(snap, arena, ARENA);
-    static const uint32_t V8[] = { 0, 0x5a, 0xff }, V16[] = { 0, 0x5a5a, 0x1234 }, V32[] = { 0, 0x5a5a5a5a, 0x12345678 };
-    char cs[120]; snprintf(cs, sizeof cs, "%d %zu %d %d %d", f, n, al, v, slack); n_calls++; h_n = 0;
+    static const uint32_t V8[] = { 0, 0x5a, 0xff, 0x80 }, V16[] = { 0, 0x5a5a, 0x1234, 0x8001, 0xfffe }, V32[] = { 0, 0x5a5a5a5a, 0x12345678, 0x80000001, 0xfffffffe };
+    char cs[120]; snprintf(cs, sizeof cs, "%d %zu %d %d %d %d", f, n, al, v, slack, bosmode); n_calls++; h_n = 0;
     switch (f) {
-    case 0: val = V8[v]; rc = p_memset(d, nb + slack, (int)val, n, BOSU); break;
-    case 1: rc = p_memzero(d, n, BOSU); break;
-    case 2: val = V16[v]; rc = p_memset16((uint16_t *)d, nb + slack * es, (uint16_t)val, n, BOSU); break;
-    case 3: val = V32[v]; rc = p_memset32((uint32_t *)d, nb + slack * es, val, n, BOSU); break;
-    case 4: rc = p_memzero16((uint16_t *)d, n, BOSU); break;
-    case 5: rc = p_memzero32((uint32_t *)d, n, BOSU); break;
-    case 6: rc = p_strzero((char *)d, n, BOSU); break;
+    case 0: val = V8[v]; rc = p_memset(d, nb + slack, (int)val, n, bos); break;
+    case 1: rc = p_memzero(d, n, bos); break;
+    case 2: val = V16[v]; rc = p_memset16((uint16_t *)d, nb + slack * es, (uint16_t)val, n, bos); break;
+    case 3: val = V32[v]; rc = p_memset32((uint32_t *)d, nb + slack * es, val, n, bos); break;
+    case 4: rc = p_memzero16((uint16_t *)d, n, bos); break;
+    case 5: rc = p_memzero32((uint32_t *)d, n, bos); break;
+    case 6: rc = p_strzero((char *)d, n, bos); break;
     }
-    char cls[80]; snprintf(cls, sizeof cls, "%s,%s", al % 8 == 0 ? "aligned8" : al % es ? "misaligned-for-type" : "unaligned8", n * es < 8 ? "n<8" : n * es < 64 ? "n<64" : "n>=64");
+    char cls[80]; snprintf(cls, sizeof cls, "%s%s,%s", bosmode == 0 ? "" : bosmode == 1 ? "size-known," : "inside-larger-object,", al % 8 == 0 ? "aligned8" : al % es ? "misaligned-for-type" : "unaligned8", n * es < 8 ? "n<8" : n * es < 64 ? "n<64" : "n>=64");
     if (verbose) printf("%s n=%zu off=%d value=%x slack=%d rc=%d handler=%d\n", FN[f], n, al, val, slack, rc, h_n);
     if (rc != 0) { report(FN[f], "fails-on-valid-arguments", cls, cs); return; }
     /* the addressed bytes hold the fill */
+    if (f == 6 && slen6 < nb) {            /* the characters up to the terminator are nulled; the stale bytes behind it up to dmax are nulled too or left alone */
+        for (size_t i = 0; i < slen6; i++) if (d[i] != 0) { report(FN[f], "addressed-byte-not-erased", cls, cs); return; }
+        int z = 1, same = 1; for (size_t i = slen6; i < nb; i++) { if (d[i] != 0) z = 0; if (d[i] != snap[256 + al + i]) same = 0; }
+        if (!z && !same) { report(FN[f], "slack-partly-changed", cls, cs); return; }
+        for (int i = 0; i < ARENA; i++) { if (arena + i >= d && arena + i < d + nb) continue; if (arena[i] != snap[i]) { if (verbose) printf("  byte at offset %ld from dest changed\n", (long)(arena + i - d)); report(FN[f], arena + i < d ? "changes-bytes-before-dest" : "changes-bytes-beyond-dmax", cls, cs); return; } }
+        return;
+    }
     for (size_t i = 0; i < nb; i++) { unsigned char want = es == 1 ? (unsigned char)val : (unsigned char)(val >> (8 * (i % es)));
         if (d[i] != want) { if (verbose) printf("  byte %zu is %02x, should be %02x\n", i, d[i], want); report(FN[f], "addressed-byte-not-erased", cls, cs); return; } }
     /* nothing else changed */
@@ -61,16 +72,16 @@ int main(int argc, char **argv) {
     void *(*sm)(void *) = dlsym(L, "set_mem_constraint_handler_s"), *(*ss)(void *) = dlsym(L, "set_str_constraint_handler_s");
     if (!p_memset || !p_memzero || !p_memset16 || !p_memset32 || !p_memzero16 || !p_memzero32 || !p_strzero || !sm || !ss) { fprintf(stderr, "missing symbols\n"); return 2; }
     sm((void *)handler); ss((void *)handler);
-    if (argc >= 7 && !strcmp(argv[1], "replay")) { verbose = 1; one(atoi(argv[2]), strtoul(argv[3], NULL, 10), atoi(argv[4]), atoi(argv[5]), atoi(argv[6])); printf(nsig ? "VERDICT violation %s\n" : "VERDICT ok\n", nsig ? sigs[0] : ""); return nsig ? 1 : 0; }
+    if (argc >= 7 && !strcmp(argv[1], "replay")) { verbose = 1; one(atoi(argv[2]), strtoul(argv[3], NULL, 10), atoi(argv[4]), atoi(argv[5]), atoi(argv[6]), argc > 7 ? atoi(argv[7]) : 0); printf(nsig ? "VERDICT violation %s\n" : "VERDICT ok\n", nsig ? sigs[0] : ""); return nsig ? 1 : 0; }
     size_t nmax = argc > 1 ? strtoul(argv[1], NULL, 10) : 80;
     for (int f = 0; f < 7; f++) for (size_t n = 1; n <= nmax; n++) for (int al = 0; al < 16; al++) {
         if (al % ESZ[f]) continue;                                /* pointers of the element type are kept aligned for it */
-        int nv = (f == 0 || f == 2 || f == 3) ? 3 : 1;
-        for (int v = 0; v < nv; v++) for (int slack = 0; slack < ((f == 0 || f == 2 || f == 3) ? 2 : 1); slack++) one(f, n, al, v, slack * 3);
+        int nv = f == 0 ? 4 : (f == 2 || f == 3) ? 5 : f == 6 ? 2 : 1;
+        for (int v = 0; v < nv; v++) for (int slack = 0; slack < ((f == 0 || f == 2 || f == 3) ? 2 : 1); slack++) for (int bm = 0; bm < 3; bm++) one(f, n, al, v, slack * 3, bm);
     }
     /* larger sizes around the chunking of the primitives */
     static const size_t BIG[] = { 255, 256, 257, 511, 512, 513, 1000, 1023, 1024, 1025, 2000 };
-    for (int f = 0; f < 7; f++) for (int b = 0; b < 11; b++) for (int al = 0; al < 16; al++) { size_t n = BIG[b] / ESZ[f]; if (al % ESZ[f]) continue; one(f, n, al, f == 0 || f == 2 || f == 3 ? 1 : 0, 0); }
+    for (int f = 0; f < 7; f++) for (int b = 0; b < 11; b++) for (int al = 0; al < 16; al++) { size_t n = BIG[b] / ESZ[f]; if (al % ESZ[f]) continue; for (int bm = 0; bm < 3; bm += 2) { one(f, n, al, f == 0 || f == 2 || f == 3 ? 1 : 0, 0, bm); if (f == 2 || f == 3) one(f, n, al, 3, 0, bm); } }
     for (int i = 0; i < nsig; i++) printf("{\"t\":\"viol\",\"sig\":\"%s\",\"n\":%ld,\"case\":\"%s\"}\n", sigs[i], sigcnt[i], sigcase[i]);
     printf("{\"t\":\"stat\",\"calls\":%ld,\"violating\":%ld}\n", n_calls, n_viol);
     return 0;
